@@ -23,7 +23,7 @@ PROPS = {
     'C14': dict(
         title='Field arithmetic is exact modular arithmetic on every representation',
         design_ref='DESIGN.md section 4 / C14',
-        bounded=[('field', ['c14_'])],
+        bounded=[('field', ['c14_']), ('field@avx2', ['c14_']), ('field@avx512', ['c14_'])],
         vspecs=['contracts/C14/gl_core.vspec', 'contracts/C14/gl_ext.vspec', 'contracts/C14/gl_inverse.vspec'],
         level_text='Unbounded deductive proof (Verus/Z3) that each base-field kernel extracted from field/src/goldilocks_field.rs returns the '
                    'mathematically correct residue for every 64/96/128/160-bit representation, with every unchecked `assume`, overflow, '
@@ -32,9 +32,10 @@ PROPS = {
                    '72-multiplication chain (that this is the inverse is Fermat, assumed). Proof is the right level: the failing operand '
                    'patterns have probability ~2^-32 under sampling.',
         level_note='Trusted: Verus+Z3; the 2-instruction x86 asm model (portable twin verified without it); std overflowing_add/sub specs; '
-                   'rustc compiling normalised and source text alike. Not covered: AVX2/AVX-512 packed fields, secp256k1, sqrt.',
+                   'rustc compiling normalised and source text alike. AVX2/AVX-512 packed fields (intrinsics; outside both verifiers): bounded harness only, run as build variants field@avx2 / field@avx512 of the same harness (c14_packed_ops: every operator '
+                   'and interleave, every pair of boundary representations in every lane, vs a u128 oracle); skipped with a note on a CPU without the features. Not covered: secp256k1, sqrt.',
         remainder=[
-            'AVX2/AVX-512 packed fields (field/src/arch/x86_64/*): not compiled in the tested build; intrinsics outside both verifiers',
+            'AVX2/AVX-512 packed fields (field/src/arch/x86_64/*): intrinsics outside both verifiers; bounded harness only (build variants field@avx2, field@avx512)',
             'secp256k1 BigUint fields; sqrt / kth_root (BigUint)',
         ],
     ),
@@ -42,6 +43,7 @@ PROPS = {
         title='Every value a gate computes is pinned by that gate\'s constraints',
         design_ref='DESIGN.md section 4 / C07',
         bounded=[('plonky2', ['c07_'])],
+        bounded_thorough=[('plonky2@avx2', ['c07_'])],
         vspecs=['contracts/C07/arithmetic_base.vspec', 'contracts/C07/constant.vspec', 'contracts/C07/exponentiation.vspec', 'contracts/C07/filtered_circuit.vspec', 'contracts/C02/gate_constraints.vspec'],
         level_text='Unbounded deductive proof (Verus/Z3), for ArithmeticGate, ConstantGate and ExponentiationGate in every parameterisation (symbolic num_ops / num_consts / num_power_bits) over an '
                    'abstract commutative ring, that the extension-field, packed/base and in-circuit evaluators all return ONE ring-generic specification '
@@ -53,7 +55,7 @@ PROPS = {
                    '(BaseSum, Exponentiation, RandomAccess, Reducing*, MulExtension, ArithmeticExtension, Poseidon*, CosetInterpolation, Lookup*) and '
                    'compute_filter / compute_filter_circuit (iterator products): bounded harness only (c07_gates: 23 gate instances incl. odd bases 3/5/7 x {standard, 37-routed-wire} configuration: extension vs '
                    'base-batch vs in-circuit evaluators incl. filtered with 1 and 2 selectors, declared constraint count, and for every wire a generator writes: the '
-                   'generated row satisfies the gate and the wire cannot be changed by +1, -1, 12345 without violating a constraint; c07_gate_ids_and_circuit_evaluation: gate ids distinguish every parameterisation, and whole circuits with lookup tables evaluate identically natively and in-circuit).',
+                   'generated row satisfies the gate and the wire cannot be changed by +1, -1, 12345 without violating a constraint; c07_gate_ids_and_circuit_evaluation: gate ids distinguish every parameterisation, and whole circuits with lookup tables evaluate identically natively and in-circuit; thorough tier: the same battery in an AVX2 build, where the base-batch evaluators run 4 lanes wide).',
         remainder=['all gates other than ArithmeticGate, ConstantGate and ExponentiationGate (bounded harness only)', 'generators run_once (closures over the witness)', 'compute_filter / compute_filter_circuit (assumed to denote the same function)'],
     ),
     'C09': dict(
@@ -79,7 +81,7 @@ PROPS = {
     'C15': dict(
         title='Transforms and polynomial algebra agree with their definitions',
         design_ref='DESIGN.md section 4 / C15',
-        bounded=[('field', ['c15_']), ('util', ['c15_'])],
+        bounded=[('field', ['c15_']), ('util', ['c15_']), ('field@avx2', ['c15_']), ('field@avx512', ['c15_'])],
         vspecs=['contracts/C15/util_log2.vspec', 'contracts/C15/poly_len.vspec'],
         level_text='Unbounded deductive proof (Verus/Z3) of log2_strict (result r with n == 2^r for every power of two; its internal assertion and its unchecked '
                    '`assume` are discharged) and of PolynomialCoeffs::pad / trim_to_len (padding never drops a coefficient; trimming succeeds exactly when only zero '
@@ -87,7 +89,7 @@ PROPS = {
                    'interpolation, bit reversal and transposes are covered by a bounded stand-in only (roots-of-unity developments are days of proof '
                    'engineering; see DESIGN.md).',
         level_note='Trusted: Verus+Z3; usize::trailing_zeros std semantics. Everything except log2_strict is BOUNDED evidence (sizes 1..256, random and boundary '
-                   'operands, naive DFT / schoolbook oracles; fft and ifft with every zero-tail factor and with root tables; coset vanishing polynomial, first Lagrange polynomial, disjoint coset shifts, value-form LDE helpers), never '
+                   'operands, naive DFT / schoolbook oracles; fft and ifft with every zero-tail factor and with root tables; scalar, AVX2 and AVX-512 builds of the same harness (packed butterflies); coset vanishing polynomial, first Lagrange polynomial, disjoint coset shifts, value-form LDE helpers), never '
                    'counted as proof; it found F6 (div_rem) and F7 (inv_mod_xn), both fixed.',
         remainder=['fft / ifft / coset variants / lde', 'polynomial mul / div_rem / divide_by_linear / interpolate', 'reverse_index_bits*, transpose_* (unsafe code)'],
     ),
